@@ -136,9 +136,9 @@ func permuteItems(items []SDLItem, r *rand.Rand, involved []string) tsVariant {
 
 func checkTypeSystem(c *core.Ctx, orderProp bool) {
 	if orderProp {
-		c.Rule = "each case is one set of type-system definitions (a generated valid schema, or the same with one injected violation of one enforced rule) loaded in its base order and under random permutations of its top-level definitions crossed with random partitions into 1-5 source files (extensions of one type keep their relative order; extensions may precede their base type, interfaces may follow their implementers); TypeSystem_Trace requires every variant's verdict and schema (types, relations, roots, directives) to equal the specification's, whose rules are predicates over the set of definitions, and a load error to name a file holding one of the definitions involved. Non-trivial = cases with at least 4 variants; distinct by SDL text"
+		c.Rule = "each case is one set of type-system definitions (a generated valid schema, or the same with one injected violation of one enforced rule) loaded in its base order and under random permutations of its top-level definitions crossed with random partitions into 1-5 source files (extensions of one type keep their relative order; extensions may precede their base type, interfaces may follow their implementers); TypeSystem_Trace requires every variant's verdict and schema (types, relations, roots, directives) to equal the specification's, whose rules are predicates over the set of definitions, and a load error to name a file holding one of the definitions involved. Non-trivial = cases with at least 4 variants that contain an extension or an injected violation; distinct by SDL text"
 	} else {
-		c.Rule = "each case is one type-system document: a generated valid-by-construction schema (must load and yield exactly the types, directives, possible-type / implements relations and roots the specification computes, with introspection fields on the query root and no dangling reference anywhere), the same with one injected violation of each enforced rule (must be rejected), hand-written corner cases, and mutated SDL; the abstract document is the projection of the real parser's output (prelude included) and TypeSystem_Trace evaluates Loads and Schema on it. Non-trivial = faulty cases and valid cases with at least one interface or union; distinct by SDL text"
+		c.Rule = "each case is one type-system document: a generated valid-by-construction schema (must load and yield exactly the types, directives, possible-type / implements relations and roots the specification computes, with introspection fields on the query root and no dangling reference anywhere), the same with one injected violation of each enforced rule (must be rejected), hand-written corner cases, and mutated SDL; the abstract document is the projection of the real parser's output (prelude included) and TypeSystem_Trace evaluates Loads and Schema on it. Non-trivial = faulty cases and cases with an extension, an interface or a union; distinct by SDL text"
 	}
 	c.Assumptions = []string{
 		"TypeSystem.tla lists the rules of the property statement plus three the loader also enforces (an extension must have the kind of its base type, at most one schema definition, a directive may not annotate its own arguments); the generators do not inject violations of rules the statement does not list",
@@ -260,7 +260,19 @@ func checkTypeSystem(c *core.Ctx, orderProp bool) {
 		lines = append(lines, b)
 		events = append(events, int64(len(inf.loaded)))
 		infos[id] = inf
-		if fault != nil || len(variants) >= 4 {
+		hasExt := false
+		for _, it := range items {
+			if it.Ext {
+				hasExt = true
+			}
+		}
+		if orderProp {
+			// order can only matter where something refers across definitions in a non-trivial way: an
+			// extension (of a type or of the schema) or an injected violation
+			if len(variants) >= 4 && (fault != nil || hasExt) {
+				nontrivial++
+			}
+		} else if fault != nil || hasExt || strings.Contains(base.String(), "interface ") || strings.Contains(base.String(), "union ") {
 			nontrivial++
 		}
 	}
